@@ -185,8 +185,9 @@ func (v *VerifMgr) IsActiveStatelessResetToken(tok [16]byte) bool {
 // SetConnectionIDLimit: u_conn_id_manager.go, the limit a spec-driven client advertised.
 func (v *VerifMgr) SetConnectionIDLimit(n uint64) { v.m.SetConnectionIDLimit(n) }
 
-func (v *VerifMgr) State() VerifMgrState {
-	h := v.m
+func (v *VerifMgr) State() VerifMgrState { return connidsVerifMgrStateOf(v.m) }
+
+func connidsVerifMgrStateOf(h *connIDManager) VerifMgrState {
 	s := VerifMgrState{
 		HighestProbing:    h.highestProbingID,
 		HandshakeComplete: h.handshakeComplete,
@@ -277,6 +278,39 @@ type VerifGen struct {
 	base int64
 	// rt: if set, the callbacks are also forwarded to a real packetHandlerMap (connection 1)
 	rt *VerifRouting
+	// a second runner (AddConnRunner: the transport of a new path) with its own recording callbacks
+	runner2 *packetHandlerMap
+	Events2 []VerifGenEvent
+}
+
+// AddRunner calls AddConnRunner with the (one) second runner; calling it again must change nothing.
+func (v *VerifGen) AddRunner() (cls int) {
+	defer v.guard(&cls)
+	if v.runner2 == nil {
+		v.runner2 = &packetHandlerMap{}
+	}
+	v.g.AddConnRunner(v.runner2, connRunnerCallbacks{
+		AddConnectionID: func(c protocol.ConnectionID) {
+			v.Events2 = append(v.Events2, VerifGenEvent{Kind: 0, CID: append([]byte{}, c.Bytes()...)})
+		},
+		RemoveConnectionID: func(c protocol.ConnectionID) {
+			v.Events2 = append(v.Events2, VerifGenEvent{Kind: 1, CID: append([]byte{}, c.Bytes()...)})
+		},
+		ReplaceWithClosed: func(ids []protocol.ConnectionID, b []byte, d time.Duration) {
+			e := VerifGenEvent{Kind: 3, Local: b != nil, Aux: int64(d)}
+			for _, c := range ids {
+				e.IDs = append(e.IDs, append([]byte{}, c.Bytes()...))
+			}
+			v.Events2 = append(v.Events2, e)
+		},
+	})
+	return VerifOK
+}
+
+func (v *VerifGen) TakeEvents2() []VerifGenEvent {
+	e := v.Events2
+	v.Events2 = nil
+	return e
 }
 
 // VerifNewGenRouted: like VerifNewGen, and the generator drives a real packetHandlerMap in which
@@ -409,8 +443,9 @@ func (v *VerifGen) ReplaceWithClosed(local bool, expiry int64) (cls int) {
 	return VerifOK
 }
 
-func (v *VerifGen) State() VerifGenState {
-	g := v.g
+func (v *VerifGen) State() VerifGenState { return connidsVerifGenStateOf(v.g, v.base) }
+
+func connidsVerifGenStateOf(g *connIDGenerator, base int64) VerifGenState {
 	s := VerifGenState{HighestSeq: g.highestSeq}
 	for seq := range g.activeSrcConnIDs {
 		s.ActiveSeqs = append(s.ActiveSeqs, seq)
@@ -420,7 +455,7 @@ func (v *VerifGen) State() VerifGenState {
 		s.ActiveCIDs = append(s.ActiveCIDs, append([]byte{}, g.activeSrcConnIDs[seq].Bytes()...))
 	}
 	for _, c := range g.connIDsToRetire {
-		s.RetireTimes = append(s.RetireTimes, int64(c.t)-v.base)
+		s.RetireTimes = append(s.RetireTimes, int64(c.t)-base)
 		s.RetireCIDs = append(s.RetireCIDs, append([]byte{}, c.connID.Bytes()...))
 	}
 	if g.initialClientDestConnID != nil {
@@ -578,4 +613,78 @@ func (v *VerifRouting) Snapshot() (routes []VerifRoute, toks [][16]byte, tokConn
 		tokConn = append(tokConn, r)
 	}
 	return
+}
+
+// ---------------------------------------------------------------------------------
+// whole connections (unit simconnids): read-only views. Call them only while the
+// connection's goroutines are parked (after synctest.Wait()).
+// ---------------------------------------------------------------------------------
+
+type ConnidsVerifView struct {
+	Mgr               VerifMgrState
+	Gen               VerifGenState // RetireTimes are raw monotime values
+	Server            bool
+	HasPeerParams     bool
+	PeerLimit         uint64 // active_connection_id_limit the peer advertised, as parsed from the wire
+	HandshakeComplete bool
+	Closed            bool
+	Now               int64 // monotime.Now()
+}
+
+func ConnidsVerifViewOf(c *Conn) ConnidsVerifView {
+	v := ConnidsVerifView{
+		Mgr:               connidsVerifMgrStateOf(c.connIDManager),
+		Gen:               connidsVerifGenStateOf(c.connIDGenerator, 0),
+		Server:            c.perspective == protocol.PerspectiveServer,
+		HandshakeComplete: c.handshakeComplete,
+		Closed:            c.closeErr.Load() != nil,
+		Now:               int64(monotime.Now()),
+	}
+	if c.peerParams != nil {
+		v.HasPeerParams = true
+		v.PeerLimit = c.peerParams.ActiveConnectionIDLimit
+	}
+	return v
+}
+
+// ConnidsVerifRoutesOf lists what the transport's routing table holds: IDs mapped to the
+// connection c, IDs mapped to a closed-connection stand-in, and the number of other entries.
+func ConnidsVerifRoutesOf(t *Transport, c *Conn) (own, closed [][]byte, others int) {
+	t.mutex.Lock()
+	defer t.mutex.Unlock()
+	for id, h := range t.handlers {
+		var hc *Conn
+		switch x := h.(type) {
+		case *Conn:
+			hc = x
+		case *wrappedConn:
+			hc = x.Conn
+		}
+		switch h.(type) {
+		case *Conn, *wrappedConn:
+			if hc == c {
+				own = append(own, append([]byte{}, id.Bytes()...))
+			} else {
+				others++
+			}
+		case *closedLocalConn, *closedRemoteConn:
+			closed = append(closed, append([]byte{}, id.Bytes()...))
+		default:
+			others++
+		}
+	}
+	sort.Slice(own, func(i, j int) bool { return string(own[i]) < string(own[j]) })
+	sort.Slice(closed, func(i, j int) bool { return string(closed[i]) < string(closed[j]) })
+	return
+}
+
+func ConnidsVerifTokensOf(t *Transport) [][16]byte {
+	t.mutex.Lock()
+	defer t.mutex.Unlock()
+	var out [][16]byte
+	for tok := range t.resetTokens {
+		out = append(out, tok)
+	}
+	sort.Slice(out, func(i, j int) bool { return string(out[i][:]) < string(out[j][:]) })
+	return out
 }
